@@ -122,8 +122,10 @@ def fullwidth_shard(_):
 # ----------------------------------------------------------------------------- container side
 DATES = [datetime.datetime(1970, 1, 1, 0, 0, 0), datetime.datetime(1970, 1, 1, 0, 0, 1),
          datetime.datetime(2038, 1, 19, 3, 14, 7), datetime.datetime(2022, 6, 21, 14, 22, 52, 999999),
-         datetime.datetime(2001, 9, 9, 1, 46, 40, 1)]
-COMMENTS = ["", "c", "Generated by basicTDF", "é€ß comment", "z" * 255]
+         datetime.datetime(2001, 9, 9, 1, 46, 40, 1),
+         # before 1970: negative numbers in the signed 32-bit field, down to its minimum
+         datetime.datetime(1969, 12, 31, 23, 59, 59), datetime.datetime(1901, 12, 13, 20, 45, 52)]
+COMMENTS = ["", "c", "Generated by basicTDF", "é€ß comment", "z" * 255, " lead and trail  ", "tab\t"]
 
 
 def _ts(d):
